@@ -308,11 +308,7 @@ func conc(pkg *packages.Package, file *ast.File, relName string, r *report) bool
 					}
 				}
 			}
-			if hasDefault {
-				r.Sites = append(r.Sites, site(n, "select-nonblocking(left as is)"))
-			} else {
-				r.Uninstrumented = append(r.Uninstrumented, site(n, "select-blocking"))
-			}
+			_ = hasDefault // the statement itself is rewritten on the way up (post)
 		case *ast.SendStmt:
 			if inSelect[n] {
 				return true
@@ -343,6 +339,12 @@ func conc(pkg *packages.Package, file *ast.File, relName string, r *report) bool
 					changed = true
 				}
 			}
+		}
+		return true
+	}, func(c *astutil.Cursor) bool {
+		// statements whose bodies must be instrumented as well are replaced on
+		// the way up: Apply does not walk a replacement node
+		switch n := c.Node().(type) {
 		case *ast.RangeStmt:
 			if tv, ok := pkg.TypesInfo.Types[n.X]; ok {
 				if _, isChan := tv.Type.Underlying().(*types.Chan); isChan {
@@ -370,9 +372,62 @@ func conc(pkg *packages.Package, file *ast.File, relName string, r *report) bool
 					changed = true
 				}
 			}
+		case *ast.SelectStmt:
+			// select { case v, ok := <-a: A; case b <- x: B; default: D }  =>
+			// switch vsSelN_ := verifsim.Select(hasDefault, SelRecv(a), SelSend(b, x)); vsSelN_.Index {
+			// case 0: v, ok := verifsim.SelValue(vsSelN_, a), vsSelN_.Ok; A   case 1: B   case -1: D }
+			nGo++
+			name := fmt.Sprintf("vsSel%d_", nGo)
+			hasDefault := false
+			var args []ast.Expr
+			var clauses []ast.Stmt
+			k := 0
+			for _, cc := range n.Body.List {
+				cl := cc.(*ast.CommClause)
+				var idx ast.Expr
+				var pre []ast.Stmt
+				if cl.Comm == nil {
+					hasDefault = true
+					idx = &ast.UnaryExpr{Op: token.SUB, X: &ast.BasicLit{Kind: token.INT, Value: "1"}}
+				} else {
+					idx = &ast.BasicLit{Kind: token.INT, Value: fmt.Sprint(k)}
+					k++
+					switch cs := cl.Comm.(type) {
+					case *ast.SendStmt:
+						args = append(args, &ast.CallExpr{Fun: sel("verifsim", "SelSend"), Args: []ast.Expr{cs.Chan, cs.Value}})
+					case *ast.ExprStmt:
+						u := cs.X.(*ast.UnaryExpr)
+						args = append(args, &ast.CallExpr{Fun: sel("verifsim", "SelRecv"), Args: []ast.Expr{u.X}})
+					case *ast.AssignStmt:
+						u := cs.Rhs[0].(*ast.UnaryExpr)
+						args = append(args, &ast.CallExpr{Fun: sel("verifsim", "SelRecv"), Args: []ast.Expr{u.X}})
+						rhs := []ast.Expr{&ast.CallExpr{Fun: sel("verifsim", "SelValue"), Args: []ast.Expr{ast.NewIdent(name), u.X}}}
+						if len(cs.Lhs) == 2 {
+							rhs = append(rhs, sel(name, "Ok"))
+						}
+						pre = append(pre, &ast.AssignStmt{Lhs: cs.Lhs, Tok: cs.Tok, Rhs: rhs})
+					}
+				}
+				clauses = append(clauses, &ast.CaseClause{List: []ast.Expr{idx}, Body: append(pre, cl.Body...)})
+			}
+			// (a select whose clauses all end in a terminating statement is
+			// terminating; a switch needs a default clause for that)
+			clauses = append(clauses, &ast.CaseClause{Body: []ast.Stmt{&ast.ExprStmt{X: &ast.CallExpr{Fun: ast.NewIdent("panic"), Args: []ast.Expr{&ast.BasicLit{Kind: token.STRING, Value: `"verifsim: select"`}}}}}})
+			hd := "false"
+			if hasDefault {
+				hd = "true"
+			}
+			call := &ast.CallExpr{Fun: sel("verifsim", "Select"), Args: append([]ast.Expr{ast.NewIdent(hd)}, args...)}
+			r.Sites = append(r.Sites, site(n, "select"))
+			c.Replace(&ast.SwitchStmt{
+				Init: &ast.AssignStmt{Lhs: []ast.Expr{ast.NewIdent(name)}, Tok: token.DEFINE, Rhs: []ast.Expr{call}},
+				Tag:  sel(name, "Index"),
+				Body: &ast.BlockStmt{List: clauses},
+			})
+			changed = true
 		}
 		return true
-	}, nil)
+	})
 	if changed {
 		astutil.AddImport(pkg.Fset, file, simPath)
 		for _, p := range []string{"sync", "os/exec", "time", "context"} {
